@@ -2,7 +2,6 @@ package props
 
 import (
 	"fmt"
-	"go/ast"
 	"go/token"
 	"go/types"
 	"strings"
@@ -228,26 +227,53 @@ func c29(p *an.Prog, r *an.R, tier string) {
 			continue
 		}
 		r.Fn(an.FuncName(f))
+		// on SSA (locals and operand order are normalised away): every return is
+		// Score(m[i]) > Score(m[j]) or Score(m[j]) < Score(m[i])
 		ok := false
-		if len(d.Decl.Body.List) == 1 {
-			if rs, isR := d.Decl.Body.List[0].(*ast.ReturnStmt); isR && len(rs.Results) == 1 {
-				if be, isB := ast.Unparen(rs.Results[0]).(*ast.BinaryExpr); isB && (be.Op == token.GTR || be.Op == token.LSS) {
-					bx, by := be.X, be.Y
-					if be.Op == token.LSS {
-						bx, by = by, bx // m[j].Score < m[i].Score is the same comparison
+		if sf := p.SSAFunc(f); sf != nil && len(sf.Params) == 3 {
+			pi, pj := sf.Params[1], sf.Params[2]
+			var scoreOf func(v ssa.Value) ssa.Value
+			scoreOf = func(v ssa.Value) ssa.Value {
+				switch x := v.(type) {
+				case *ssa.UnOp: // load
+					if x.Op != token.MUL {
+						return nil
 					}
-					x, okx := ast.Unparen(bx).(*ast.SelectorExpr)
-					y, oky := ast.Unparen(by).(*ast.SelectorExpr)
-					if okx && oky && x.Sel.Name == "Score" && y.Sel.Name == "Score" {
-						ix, ok1 := ast.Unparen(x.X).(*ast.IndexExpr)
-						iy, ok2 := ast.Unparen(y.X).(*ast.IndexExpr)
-						if ok1 && ok2 {
-							pi, pj := an.Param(d.Pkg.TypesInfo, d.Decl, 0), an.Param(d.Pkg.TypesInfo, d.Decl, 1)
-							ok = an.UsesObj(d.Pkg.TypesInfo, ix.Index, pi) && an.UsesObj(d.Pkg.TypesInfo, iy.Index, pj)
+					if fa, isFA := x.X.(*ssa.FieldAddr); isFA {
+						if st, isS := an.Deref(fa.X.Type()).Underlying().(*types.Struct); isS && st.Field(fa.Field).Name() == "Score" {
+							if ia, isIA := fa.X.(*ssa.IndexAddr); isIA {
+								return ia.Index
+							}
+						}
+					}
+				case *ssa.Field:
+					if st, isS := x.X.Type().Underlying().(*types.Struct); isS && st.Field(x.Field).Name() == "Score" {
+						if ld, isL := x.X.(*ssa.UnOp); isL && ld.Op == token.MUL {
+							if ia, isIA := ld.X.(*ssa.IndexAddr); isIA {
+								return ia.Index
+							}
 						}
 					}
 				}
+				return nil
 			}
+			rets, good := 0, 0
+			an.Instrs(sf, func(b *ssa.BasicBlock, in ssa.Instruction) {
+				rt, isR := in.(*ssa.Return)
+				if !isR || len(rt.Results) != 1 {
+					return
+				}
+				rets++
+				bo, isB := rt.Results[0].(*ssa.BinOp)
+				if !isB {
+					return
+				}
+				x, y := scoreOf(bo.X), scoreOf(bo.Y)
+				if (bo.Op == token.GTR && x == ssa.Value(pi) && y == ssa.Value(pj)) || (bo.Op == token.LSS && x == ssa.Value(pj) && y == ssa.Value(pi)) {
+					good++
+				}
+			})
+			ok = rets > 0 && rets == good
 		}
 		r.Check(ok, "C29.R2", an.FuncName(f)+"/is-score-descending", d.Decl.Pos(), "Less(i, j) is m[i].Score > m[j].Score", "the comparator is not the plain strict comparison of scores: results are no longer ordered by non-increasing score (or the comparator is not a strict weak order)")
 	}
